@@ -1126,30 +1126,18 @@ def _simplify_function_min(call: HplFunctionCall) -> HplExpression:
 
 def _obviously_different(a: HplExpression, b: HplExpression) -> bool:
     # assume arguments have been simplified
-    if _obvious_negatives(a, b):
-        return True
+    # p and (not p) always differ; a number and its negation do not (both are 0 at 0)
+    if isinstance(a, HplUnaryOperator) and a.operator.is_not:
+        return a.operand == b
+    if isinstance(b, HplUnaryOperator) and b.operator.is_not:
+        return b.operand == a
     if isinstance(a, HplBinaryOperator):
         op: BinaryOperatorDefinition = a.operator
-        assert not isinstance(a.operand1, HplLiteral)  # due to simplification
+        # a + k and a - k differ from a for a nonzero literal k
+        # (a * k, a / k and a ** k do not: they coincide with a at 0 or 1)
         if op.is_plus or op.is_minus:
             if a.operand1 == b and isinstance(a.operand2, HplLiteral):
-                assert a.operand2.value != 0  # due to simplification
-                return True
-        if op.is_times:
-            if a.operand1 == b and isinstance(a.operand2, HplLiteral):
-                assert a.operand2.value != 0  # due to simplification
-                assert a.operand2.value != 1  # due to simplification
-                return True
-        if op.is_division:
-            if a.operand1 == b and isinstance(a.operand2, HplLiteral):
-                assert a.operand2.value != 0  # due to simplification
-                assert a.operand2.value != 1  # due to simplification
-                return True
-        if op.is_power:
-            if a.operand1 == b and isinstance(a.operand2, HplLiteral):
-                assert a.operand2.value != 0  # due to simplification
-                assert a.operand2.value != 1  # due to simplification
-                return True
+                return a.operand2.value != 0
     return False
 
 
